@@ -46,7 +46,7 @@ func genRP(t *rapid.T) RPCase {
 	}
 	yes := true
 	var ntt *bool
-	if rapid.IntRange(0, 3).Draw(t, "nttDrawn") != 0 {
+	if rapid.IntRange(0, 1).Draw(t, "nttDrawn") != 0 {
 		ntt = &yes
 	}
 	c.Params = genParams(t, 4, maxLogN, false, ntt)
